@@ -53,7 +53,7 @@ func c07Cases(tier string, seed int64) []string {
 	var l []string
 	nSeq, nLong, nConc := 160, 2, 6
 	if tier == "thorough" {
-		nSeq, nLong, nConc = 6000, 24, 96
+		nSeq, nLong, nConc = 12000, 96, 160
 	}
 	for i := 0; i < nSeq; i++ {
 		kind := "ldb"
